@@ -48,6 +48,9 @@ type enc struct {
 	bo     binary.ByteOrder
 	mode   Mode
 	fields []Field
+	// TypeWords are the offsets of the 4-byte type words of every geometry
+	// header, in encoding order (index 0 is the top-level geometry).
+	typeWords []int
 }
 
 func (e *enc) u32(v uint32) {
@@ -93,6 +96,7 @@ func (e *enc) header(id uint32, l geom.Layout, srid int) error {
 		default:
 			return ErrNotEncodable
 		}
+		e.typeWords = append(e.typeWords, len(e.buf))
 		e.u32(t)
 	case EWKB:
 		switch l {
@@ -109,6 +113,7 @@ func (e *enc) header(id uint32, l geom.Layout, srid int) error {
 		if srid != 0 {
 			t |= 0x20000000
 		}
+		e.typeWords = append(e.typeWords, len(e.buf))
 		e.u32(t)
 		if srid != 0 {
 			e.u32(uint32(srid))
@@ -215,6 +220,18 @@ func Encode(g *model.G, xdr bool, mode Mode) ([]byte, []Field, error) {
 		return nil, nil, err
 	}
 	return e.buf, e.fields, nil
+}
+
+// EncodeWithHeaders is Encode that also returns the offsets of every header's type word.
+func EncodeWithHeaders(g *model.G, xdr bool, mode Mode) ([]byte, []Field, []int, error) {
+	e := &enc{mode: mode, bo: binary.LittleEndian}
+	if xdr {
+		e.bo = binary.BigEndian
+	}
+	if err := e.geom(g, true); err != nil {
+		return nil, nil, nil, err
+	}
+	return e.buf, e.fields, e.typeWords, nil
 }
 
 // HasEmptyPoint reports whether an empty point (or empty multipoint member)
